@@ -75,6 +75,22 @@ pub fn expr_forms(ops: &[String], literals: bool) -> Vec<String> {
     v
 }
 
+/// Outer expression forms with an inner slot `{e}`.
+pub const WRAPPERS: [&str; 12] = [
+    "parallel ({e})",
+    "parallel (1 + {e})",
+    "parallel f({e})",
+    "-({e})",
+    "1 + ({e})",
+    "f({e})",
+    "a[{e}]",
+    "T()({e})",
+    "({e}) ? 1 : 2",
+    "x ? ({e}) : 2",
+    "[{e}, 1]",
+    "({e}, 1)",
+];
+
 /// Statement forms with an expression slot `{e}`.
 pub const STMT_FORMS: [&str; 55] = [
     "x = {e};",
@@ -379,7 +395,7 @@ pub fn run(run: &Run) {
     run.set_rule(
         "(i) 55 statement forms x expression forms (operands, 20 infix, 3 prefix, ternary, calls, arrays, \
          accesses, tuples, anonymous components positional/named/unknown, parallel, `_`, literal \
-         alphabet incl. 0x, p, 2^256, division by zero, huge shifts; depth 2 in thorough) x 5 contexts \
+         alphabet incl. 0x, p, 2^256, division by zero, huge shifts; 12 outer forms (parallel, prefix, infix, call, index, anonymous-component argument, ternary, array, tuple) over the sugar-bearing inner forms, over all inner forms and compound operands in thorough) x 5 contexts \
          (template, custom, parallel, function statement, function return); (ii) all strings <= 3 (4) \
          symbols over a 30-symbol alphabet in 3 embeddings, all 1- and 2-byte files; (iii) 13 \
          recursion-prone constructs at sizes 10..10^4 through the binary; (iv) corpus x 3 curves x 3 \
@@ -400,6 +416,19 @@ pub fn run(run: &Run) {
             let mut ops = compound.clone();
             ops.rotate_left(rot);
             exprs.extend(expr_forms(&ops[..3].to_vec(), false));
+        }
+    }
+    // Outer operators over inner forms (depth 2 the other way round: the inner form is the
+    // interesting one, the wrapper decides which desugaring / lifting path it arrives on).
+    // Quick: inner forms that involve sugar (anonymous components, tuples, parallel, `_`);
+    // thorough: every depth-1 form.
+    let inner: Vec<String> = expr_forms(&base_atoms, false)
+        .into_iter()
+        .filter(|e| run.tier == Tier::Thorough || e.contains("T(") || e.starts_with('(') || e.contains("parallel") || e == "_")
+        .collect();
+    for w in WRAPPERS {
+        for e in &inner {
+            exprs.push(w.replace("{e}", e));
         }
     }
     exprs.sort();
